@@ -675,6 +675,33 @@ def desugar_comprehensions(stmts: list) -> list:
             if ret_form is not None:
                 out.append(ast.copy_location(ast.Return(value=ast.Name(id="_comp_ret", ctx=ast.Load())), ret_form))
             continue
+        if (
+            isinstance(s, ast.Assign)
+            and len(s.targets) == 1
+            and isinstance(s.targets[0], ast.Name)
+            and isinstance(s.value, ast.Call)
+            and isinstance(s.value.func, ast.Name)
+            and s.value.func.id == "sum"
+            and not s.value.keywords
+            and 1 <= len(s.value.args) <= 2
+            and isinstance(s.value.args[0], (ast.GeneratorExp, ast.ListComp))
+            and all(not g.is_async for g in s.value.args[0].generators)
+            and isinstance(s.value.args[0].elt, ast.Call)
+            and isinstance(s.value.args[0].elt.func, ast.Name)
+        ):
+            # `n = sum(helper(v) for v in it)`  ->  `n = 0; for v in it: n += helper(v)`: the helper's effects happen
+            # once per item, in order, and its result is accumulated (what a counting loop spells out)
+            name = s.targets[0].id
+            comp = s.value.args[0]
+            init = ast.Assign(targets=[ast.Name(id=name, ctx=ast.Store())], value=s.value.args[1] if len(s.value.args) == 2 else ast.Constant(value=0))
+            body = [ast.copy_location(ast.AugAssign(target=ast.Name(id=name, ctx=ast.Store()), op=ast.Add(), value=comp.elt), s)]
+            for g in reversed(comp.generators):
+                for c in reversed(g.ifs):
+                    body = [ast.copy_location(ast.If(test=c, body=body, orelse=[]), s)]
+                body = [ast.copy_location(ast.For(target=g.target, iter=g.iter, body=body, orelse=[]), s)]
+            out.append(ast.copy_location(init, s))
+            out.extend(body)
+            continue
         out.append(s)
     return out
 
@@ -893,13 +920,17 @@ def propagate_copies(fn: ast.FunctionDef, only_prefix: str = "_h") -> ast.Functi
 _CACHE: dict = {}
 
 
+def _needs_desugar(node: ast.AST) -> bool:
+    return any(isinstance(x, (ast.DictComp, ast.ListComp)) or (isinstance(x, ast.Call) and isinstance(x.func, ast.Name) and x.func.id == "sum" and x.args and isinstance(x.args[0], ast.GeneratorExp)) for x in ast.walk(node))
+
+
 def inlined(prog: Program, fi: FuncInfo, *, keep=(), only=None, max_depth: int = 2, desugar: bool = False) -> FuncInfo:
     """fi with same-module helper calls expanded (a new FuncInfo; fi itself when nothing was expanded)"""
     key = (prog.uid, fi.key, tuple(sorted(keep)), tuple(sorted(only)) if only else None, max_depth, desugar)
     if key in _CACHE:
         return _CACHE[key]
     cur = fi
-    if desugar and any(isinstance(x, (ast.DictComp, ast.ListComp)) for x in ast.walk(fi.node)):
+    if desugar and _needs_desugar(fi.node):
         node = copy.copy(fi.node)
         node.body = desugar_comprehensions(list(fi.node.body))
         ast.fix_missing_locations(node)
@@ -930,7 +961,7 @@ def inlined(prog: Program, fi: FuncInfo, *, keep=(), only=None, max_depth: int =
         node = copy.copy(cur.node)
         node.body = body
         ast.fix_missing_locations(node)
-        if desugar and any(isinstance(x, (ast.DictComp, ast.ListComp)) for x in ast.walk(node)):
+        if desugar and _needs_desugar(node):
             node.body = desugar_comprehensions(list(node.body))  # comprehensions that came in with a helper's body
             ast.fix_missing_locations(node)
         cur = FuncInfo(fi.module, fi.qualname, node, fi.cls, fi.variant, fi.parent)
